@@ -63,6 +63,10 @@ pub fn outside<T: Flt>(src: &mut Src, x: &[f64]) -> (f64, &'static str) {
     let (lo, hi) = (T::of(x[0]), T::of(x[n - 1]));
     let span = x[n - 1] - x[0];
     let (jlo, jhi) = if T::MANT == 53 { (-10, 40) } else { (-6, 8) };
+    // the origin, when it lies outside the range ("extrapolate to the intercept")
+    if !(x[0] <= 0.0 && 0.0 <= x[n - 1]) && src.chance(1, 6) {
+        return (if src.bool() { 0.0 } else { -0.0 }, "out:zero");
+    }
     match src.below(4) {
         0 => (lo.down().f(), "out:just-below"),
         1 => (hi.up().f(), "out:just-above"),
